@@ -880,8 +880,9 @@ impl EdnsData {
     }
 
     pub fn get_cookie(&self) -> Option<(&[u8], Option<&[u8]>)> {
+        /* A cookie option shorter than the 8 octet client cookie is malformed: treat as absent. */
         self.get_opt(&EDNS_COOKIE)
-            .map(|opt| (&opt.data[..8], opt.data.get(8..)))
+            .and_then(|opt| Some((opt.data.get(..8)?, opt.data.get(8..))))
     }
 
     pub fn set_cookie(&mut self, client: &[u8], server: &[u8]) {
@@ -897,12 +898,15 @@ impl EdnsData {
     }
 
     pub fn get_extended_dns_error(&self) -> Option<(EdeCode, String)> {
-        self.get_opt(&EDNS_EDE).map(|opt| {
-            (
-                EdeCode(u16::from_be_bytes([opt.data[0], opt.data[1]])),
-                String::from_utf8_lossy(&opt.data[2..]).into_owned(),
-            )
-        })
+        /* An option too short to hold the 2 octet info-code is malformed: treat as absent. */
+        self.get_opt(&EDNS_EDE)
+            .filter(|opt| opt.data.len() >= 2)
+            .map(|opt| {
+                (
+                    EdeCode(u16::from_be_bytes([opt.data[0], opt.data[1]])),
+                    String::from_utf8_lossy(&opt.data[2..]).into_owned(),
+                )
+            })
     }
 
     pub fn set_opt(&mut self, opt: EdnsOption) {
